@@ -284,3 +284,33 @@ pub fn c18_q_ctxt_frame_step() {
     kani::cover!(active && sampled && !disabled, "child frame in a sampled trace");
     kani::cover!(disabled, "disabled frame");
 }
+
+/// The same step for a runtime WITHOUT a sampler (`TraceparentFilter::new()`): new traces are sampled; inside a
+/// trace the incoming / parent flag is inherited, so inside an unsampled trace no span is emitted.
+#[kani::proof]
+#[kani::unwind(13)]
+#[kani::stub(emit::span::TraceId::try_from_hex, trace_hex_unreachable)]
+#[kani::stub(emit::span::SpanId::try_from_hex, span_hex_unreachable)]
+#[kani::stub(emit_core::value::Value::parse, parse_unreachable)]
+#[kani::stub(<u128 as emit_core::value::FromValue>::from_value, u128_from_value_unreachable)]
+#[kani::stub(<u64 as emit_core::value::FromValue>::from_value, u64_from_value_unreachable)]
+pub fn c18_q_filter_step_no_sampler() {
+    let filter = TraceparentFilter::new();
+    let active: bool = kani::any();
+    let sampled: bool = kani::any();
+    let (t, sp, new_sp) = (7u128, 9u64, 11u64);
+    let span_ctxt = SpanCtxt::new(TraceId::from_u128(t), if active { SpanId::from_u64(sp) } else { None }, SpanId::from_u64(new_sp));
+    let check = || {
+        let evt = emit::Span::new(Path::new_raw("m"), "s", Empty, span_ctxt);
+        let got = filter.matches(&evt);
+        if active { assert!(got == sampled, "the incoming / parent flag is inherited (also without a sampler)"); }
+        else { assert!(got, "without a sampler every new trace is sampled"); }
+    };
+    if active {
+        Traceparent::new(TraceId::from_u128(t), SpanId::from_u64(sp), if sampled { TraceFlags::SAMPLED } else { TraceFlags::EMPTY }).push().call(check);
+    } else {
+        check();
+    }
+    kani::cover!(active && !sampled, "inside an unsampled trace");
+    kani::cover!(!active, "new trace");
+}
